@@ -231,6 +231,8 @@ class C06:
         cfg = cfg_for(name, rc)
         env = make_env(cfg)
         two = E.gen_rows(env, cfg, 2, st.torch_seed("instances"))
+        if rc.random() < 0.4:  # hand-supplied documented-format data (service durations, own budgets, low prizes)
+            two, _src = E.hand_format(name, two, rc)
         row = two[0]
         companion = E.enc_row(two[1]) if (name not in ("tsp_kopt", "pdp_ruin_repair") and rc.random() < 0.5) else None
         return {"cfg": cfg, "instance": E.enc_row(row), "companion": companion, "strategy": rc.choice(D.STRATEGIES),
@@ -404,11 +406,8 @@ def _constructive(run, env, cfg, row):
     else:
         run.probe("faults_exhaustive")
     for kind, info, b in faults:
-        if name == "sdvrp" and any(b[i] == 0 and b[i + 1] == 0 for i in range(len(b) - 1)) and \
-                not all(x == 0 for x in b[b.index(0) if 0 in b else 0:] if False):
-            # consecutive depot visits mid-solution: encoding convention, not generated
-            if _mid_double_depot(b):
-                continue
+        if name == "sdvrp" and _mid_double_depot(b):
+            continue  # consecutive depot visits while demand remains: encoding convention, not generated
         _judge(run, name, cfg, row, ref0, env, td0, b, kind, info, stats)
         run.fault("action:" + kind)
     for kind, info, r2 in instance_faults(name, row, acts, rng):
